@@ -10,6 +10,7 @@
    implementation is checked by the two-run oracle of check/props/c06.py and by the pointer-level walker. *)
 From Coq Require Import List NArith Bool.
 From GY Require Import Model.Schema Spec.C06 Spec.C04 Proofs.SchemaLemmas Proofs.GroupingProofs Proofs.GroupingProcess.
+From GY Require Model.Heap Proofs.HeapProofs.
 Import ListNotations.
 
 (* ------------------------------------------------------------------ T1 faithful *)
@@ -233,3 +234,95 @@ Proof.
   eexists. eexists. split; [vm_compute; reflexivity|]. split; [vm_compute; reflexivity|].
   split; [vm_compute; reflexivity|]. vm_compute. repeat split; discriminate.
 Qed.
+
+(* ------------------------------------------------------------------ pointer level (Model/Heap.v) *)
+(* The entries above are immutable trees.  Model/Heap.v models Entry.dup / add / merge of entry.go on a heap of cells
+   with Parent pointers; wf_tree h r: the cells reachable from r (Dir, RPC.Input, RPC.Output) are allocated, each
+   points back to its holder, none is reached twice.  The model is compared with the implementation's pointer graph
+   on every run (check/props/c06.py, heap_leg). *)
+
+(* dup of a well-formed tree (fuel = size of the heap, as run by the harness): succeeds; the copy is a well-formed tree;
+   every id of it is FRESH (not allocated before: disjoint from the source, the grouping and every earlier copy); it
+   erases to the same plain tree (names, kinds, list attributes, type references, shape, input/output); every cell
+   allocated before is unchanged *)
+Theorem C06_heap_dup_fresh_wf_iso_frame : forall h r, HeapProofs.wf_tree h r ->
+  exists h' r' t ids',
+    Heap.dup_top h r = Some (h', r') /\
+    HeapProofs.wf_tree h' r' /\
+    Heap.reach (length h) h' r' = Some ids' /\ Forall (fun i => length h <= i < length h') ids' /\
+    Heap.erase (length h) h r = Some t /\ Heap.erase (length h) h' r' = Some t /\
+    (forall i, i < length h -> Heap.get h' i = Heap.get h i) /\ length h <= length h'.
+Proof. exact HeapProofs.dup_fresh_wf_iso_frame. Qed.
+
+Theorem C06_heap_dup_keeps_source : forall h r h' r', HeapProofs.wf_tree h r -> Heap.dup_top h r = Some (h', r') ->
+  HeapProofs.wf_tree h' r /\ Heap.erase (length h) h' r = Heap.erase (length h) h r.
+Proof. exact HeapProofs.dup_keeps_source. Qed.
+
+(* two uses of one grouping: two successive copies are both well-formed in the final heap, erase to the grouping's
+   tree, and share no cell with each other, with the grouping, or with anything allocated before *)
+Theorem C06_heap_dup_twice_disjoint : forall h r, HeapProofs.wf_tree h r ->
+  exists h1 r1 h2 r2 t ids1 ids2,
+    Heap.dup_top h r = Some (h1, r1) /\ Heap.dup_top h1 r = Some (h2, r2) /\
+    HeapProofs.wf_tree h2 r1 /\ HeapProofs.wf_tree h2 r2 /\ HeapProofs.wf_tree h2 r /\
+    Heap.reach (length h) h2 r1 = Some ids1 /\ Heap.reach (length h1) h2 r2 = Some ids2 /\
+    (forall i, In i ids1 -> In i ids2 -> False) /\
+    Forall (fun i => length h <= i) ids1 /\ Forall (fun i => length h <= i) ids2 /\
+    Heap.erase (length h) h2 r1 = Some t /\ Heap.erase (length h1) h2 r2 = Some t /\ Heap.erase (length h) h r = Some t.
+Proof. exact HeapProofs.dup_twice_disjoint. Qed.
+
+(* non-vacuity: a grouping with a container, a list and an rpc with input and output children is a well-formed tree *)
+Example C06_heap_ex_wf : HeapProofs.wf_tree HeapProofs.ex_heap 0.
+Proof. exact HeapProofs.ex_heap_wf. Qed.
+
+(* add of a separate well-formed tree v (a fresh copy) under a cell e anywhere in a well-formed tree, key not taken:
+   the result is a well-formed tree over exactly the ids of both; v points to e; e holds v under the key; no other cell
+   changes *)
+Theorem C06_heap_add_wf : forall h root e key v idsr idsv ce,
+  HeapProofs.reaches h root idsr -> NoDup idsr -> HeapProofs.reaches h v idsv -> NoDup idsv ->
+  In e idsr -> (forall x, In x idsr -> ~ In x idsv) ->
+  Heap.get h e = Some ce -> Heap.lookup key (Heap.c_children ce) = None ->
+  let h' := Heap.add h e key v in
+  (exists ids', HeapProofs.reaches h' root ids' /\ NoDup ids' /\ (forall x, In x ids' <-> In x idsr \/ In x idsv)) /\
+  HeapProofs.wf_tree h' root /\
+  (exists cv, Heap.get h' v = Some cv /\ Heap.c_parent cv = Some e) /\
+  Heap.get h' e = Some (Heap.with_children ce (Heap.c_children ce ++ [(key, v)])) /\
+  (forall x, x <> e -> x <> v -> Heap.get h' x = Heap.get h x).
+Proof. exact HeapProofs.add_wf. Qed.
+
+(* key taken: the error is recorded on e, the link is not made; value.Parent = e has already been written (entry.go
+   assigns it before looking the key up); no other cell changes *)
+Theorem C06_heap_add_duplicate : forall h e key v ce w,
+  Heap.get h e = Some ce -> v <> e -> Heap.lookup key (Heap.c_children ce) = Some w ->
+  let h' := Heap.add h e key v in
+  Heap.get h' e = Some (Heap.with_err ce) /\
+  (forall cv, Heap.get h v = Some cv -> Heap.get h' v = Some (Heap.with_parent cv (Some e))) /\
+  (forall x, x <> e -> x <> v -> Heap.get h' x = Heap.get h x).
+Proof. exact HeapProofs.add_duplicate. Qed.
+
+Theorem C06_heap_wf_tree_reaches : forall h r,
+  HeapProofs.wf_tree h r <-> exists ids, HeapProofs.reaches h r ids /\ NoDup ids.
+Proof. exact HeapProofs.wf_tree_reaches. Qed.
+
+(* merge (what `uses` and augment do) of a separate well-formed tree oe -- the grouping -- into a cell e anywhere in a
+   well-formed tree, with the harness's fuel: succeeds; the target tree is again well-formed and contains e; every
+   link of e, the moved copies among them, leads to a cell whose Parent is e; every cell allocated before, other than
+   e, is unchanged -- the grouping itself, every other instance, the rest of the target (a duplicate name adds an
+   error to e and links nothing) *)
+Theorem C06_heap_merge_wf : forall h root e ns oe idsr idso,
+  HeapProofs.reaches h root idsr -> NoDup idsr -> In e idsr -> HeapProofs.reaches h oe idso -> NoDup idso ->
+  (forall x, In x idsr -> ~ In x idso) ->
+  exists h', Heap.merge_top h e ns oe = Some h' /\
+    HeapProofs.wf_tree h' root /\
+    (exists ids', HeapProofs.reaches h' root ids' /\ NoDup ids' /\ In e ids') /\
+    (exists ce', Heap.get h' e = Some ce' /\
+       forall k w, In (k, w) (Heap.c_children ce' ++ Heap.opt_list (Heap.c_input ce') ++ Heap.opt_list (Heap.c_output ce')) ->
+       exists cw, Heap.get h' w = Some cw /\ Heap.c_parent cw = Some e) /\
+    (forall x, x < length h -> x <> e -> Heap.get h' x = Heap.get h x) /\ length h <= length h'.
+Proof. exact HeapProofs.merge_wf. Qed.
+
+(* in a well-formed tree every link (Dir, input, output) of every reachable cell leads to a cell pointing back to it *)
+Theorem C06_heap_links_point_back : forall f h p r t ids e, Heap.walk f h p r = Some (t, ids) -> In e ids ->
+  exists ce, Heap.get h e = Some ce /\
+    forall k w, In (k, w) (Heap.c_children ce ++ Heap.opt_list (Heap.c_input ce) ++ Heap.opt_list (Heap.c_output ce)) ->
+    exists cw, Heap.get h w = Some cw /\ Heap.c_parent cw = Some e.
+Proof. exact HeapProofs.walk_links_parent. Qed.
